@@ -188,10 +188,17 @@ def predicate(case, nested):
         if len(fs) % 2:
             fails.append(("ns-shape", f"odd number of candidates {len(fs)}"))
         n = len(fs) // 2
-        if n >= 1 and (n - 1) * b > length * (1 + Fraction(1, 10**9)):
-            fails.append(("ns-extent", f"largest n = {n}: (n-1)*b = {float((n - 1) * b)} > length {float(length)}"))
-        if (n) * b <= length * (1 - Fraction(1, 10**9)):
-            fails.append(("ns-not-maximal", f"largest n = {n} but n*b = {float(n * b)} <= length {float(length)}"))
+        # rounding-level slack only: floor(length / b) may see a quotient rounded across an integer, which
+        # moves (n-1)*b past the land side by an ulp or two of the side, never by a fraction of the spacing
+        slack = 4 * Fraction(math.ulp(float(a[0])))
+        if n >= 1 and (n - 1) * b > length + slack:
+            fails.append(("ns-extent", f"largest n = {n}: the short side (n-1)*b = {float((n - 1) * b)!r} of the last two candidates exceeds the land side {float(length)!r} by {float((n - 1) * b - length):.3g} m"))
+        if n * b <= length - slack:
+            fails.append(("ns-not-maximal", f"largest n = {n} but n*b = {float(n * b)!r} <= length {float(length)!r}"))
+        for idx, arr in enumerate(fs):
+            if len(arr) and Fraction(float(min(arr[:, 0].max(), arr[:, 1].max()))) > length + slack:
+                fails.append(("ns-outside", f"candidate {idx} ({len(arr)} boreholes): short side reaches {float(min(arr[:, 0].max(), arr[:, 1].max()))!r} on a land side of {float(length)!r}"))
+                break
         bf = float(a[1])
         for idx, arr in enumerate(fs):
             kk, jj = idx // 2 + 1, idx // 2 + 1 + idx % 2
@@ -411,10 +418,19 @@ def pick_side(rng, b, kmax, kind):
         return max(0.5, round(rng.uniform(0.6, kmax) * b, 1))
     if kind == "half":
         return b * (k + 0.5)
+    if kind == "just-under":      # frac(side / b) in [0.99, 1): just short of a whole number of spacings
+        t = rng.choice([rng.uniform(1e-9, 0.01), rng.uniform(0.001, 0.01), 0.01 * rng.random() ** 3])
+        x = b * (k + 1 - t)
+        if rng.random() < 0.4 and math.floor(round(x, 2) / b) == k and round(x, 2) / b - k >= 0.99:
+            x = round(x, 2)       # a surveyor's number such as 99.97
+        return x
+    if kind == "just-over":       # frac(side / b) in (0, 0.01]
+        t = rng.choice([rng.uniform(1e-9, 0.01), rng.uniform(0.001, 0.01), 0.01 * rng.random() ** 3])
+        return b * (k + t)
     return rng.uniform(0.6, kmax) * b
 
 
-RATIO_KINDS = ["integer", "ulp+", "ulp-", "decimal", "generic", "half"]
+RATIO_KINDS = ["integer", "ulp+", "ulp-", "decimal", "generic", "half", "just-under", "just-over"]
 
 
 def make_lot(rng, kmax):
